@@ -2,7 +2,7 @@
 From Coq Require Import QArith.
 From Boreal Require Import Base.Prelude Spec.MathSpec Spec.Digest Spec.Strtol Spec.RangeSpec
   Model.ModFuncs Model.HashMod Model.MathMod Model.StringMod Model.ModFuncsCase
-  Proofs.ModFuncsProofs Proofs.ModFuncsFrag Proofs.ModFuncsToInt Proofs.ModFuncsMath Proofs.ModFuncsCrc.
+  Proofs.ModFuncsProofs Proofs.ModFuncsFrag Proofs.ModFuncsToInt Proofs.ModFuncsMath Proofs.ModFuncsCrc Proofs.ModFuncsMath2.
 
 (* ---- arguments: with i64 arguments the checked additions of get_args / offset_length_to_start_end never fail *)
 Theorem C16_args_no_overflow : forall o n,
@@ -108,11 +108,74 @@ Theorem C16_math_count_percentage : forall mem b, Forall (fun x => x < 256) mem 
   /\ percentage_call (Direct mem) [AInt b] = spec_call (Direct mem) MPercentage [AInt b].
 Proof. exact (fun mem b H => conj (count_whole mem b H) (percentage_whole mem b H)). Qed.
 
-(* mode: proved part = "a byte value of maximal count" (that it is the smallest such value is tied by the
-   correspondence only) *)
-Theorem C16_math_mode_partial : forall mem, Forall (fun x => x < 256) mem ->
-  exists i, mode_call (Direct mem) [] = RInt (Z.of_N i) /\ i < 256 /\ forall b, b < 256 -> count_of b mem <= count_of i mem.
-Proof. exact mode_whole_max. Qed.
+(* mode: the smallest byte value of maximal count (the tie-breaking of `.rev().max_by_key()` is in the model) *)
+Theorem C16_math_mode : forall mem, Forall (fun x => x < 256) mem ->
+  mode_call (Direct mem) [] = RInt (mode_spec mem)
+  /\ exists i, mode_spec mem = Z.of_N i /\ i < 256
+       /\ (forall b, b < 256 -> count_of b mem <= count_of i mem)
+       /\ (forall b, b < i -> count_of b mem < count_of i mem).
+Proof. exact mode_whole. Qed.
+
+(* serial correlation: streamed sums = cyclic lag-1 formula (exact integers, exact rational quotient) *)
+Theorem C16_math_serial_correlation : forall s, compute_from_bytes scc_d s = RFloat (scc_spec s).
+Proof. exact scc_bytes. Qed.
+
+(* deviation: sum over the non-empty histogram buckets = sum over the byte sequence (exact rationals) *)
+Theorem C16_math_deviation : forall s mu, Forall (fun b => b < 256) s ->
+  compute_deviation (distribution_from_bytes s) mu = of_opt_f (deviation_spec s mu).
+Proof. exact deviation_bytes. Qed.
+
+(* every math call over (offset, size) of a byte slice = its specification on the clipped bytes; model_call is the
+   function the correspondence evaluates *)
+Theorem C16_math_ranges : forall mem o n c,
+  Forall (fun x => x < 256) mem -> 255 * nlen mem <= umax -> (o <= i64max)%Z -> (n <= i64max)%Z ->
+  (forall f, In f [MEntropy; MMean; MSerial; MMonte; MMode] ->
+     snd (model_call (Direct mem) c f [AInt o; AInt n]) = spec_call (Direct mem) f [AInt o; AInt n])
+  /\ (forall mu, snd (model_call (Direct mem) c MDeviation [AInt o; AInt n; AFlt mu])
+                 = spec_call (Direct mem) MDeviation [AInt o; AInt n; AFlt mu])
+  /\ (forall b f, In f [MCount; MPercentage] ->
+        snd (model_call (Direct mem) c f [AInt b; AInt o; AInt n]) = spec_call (Direct mem) f [AInt b; AInt o; AInt n]).
+Proof. exact math_ranges. Qed.
+
+(* the same over fragmented memory (any region list without address overflow, bytes < 256): the value over the bytes
+   RangeSpec describes; with a non-refetching scan mode both sides are undefined *)
+Theorem C16_math_fragmented : forall refetch rs o n c,
+  regions_ok rs -> Forall (fun x => x < 256) (flat rs) -> 255 * nlen (flat rs) <= umax ->
+  (o <= i64max)%Z -> (n <= i64max)%Z ->
+  let m := Frag refetch rs in
+  (forall f, In f [MEntropy; MMean; MSerial; MMonte; MMode] ->
+     snd (model_call m c f [AInt o; AInt n]) = spec_call m f [AInt o; AInt n])
+  /\ (forall mu, snd (model_call m c MDeviation [AInt o; AInt n; AFlt mu]) = spec_call m MDeviation [AInt o; AInt n; AFlt mu])
+  /\ (forall b f, In f [MCount; MPercentage] ->
+        snd (model_call m c f [AInt b; AInt o; AInt n]) = spec_call m f [AInt b; AInt o; AInt n]).
+Proof. exact math_fragmented. Qed.
+
+(* on_range for a callback whose streaming law holds on an invariant set of states (MonteCarloPi: pending < 6) *)
+Theorem C16_on_range_fragmented_inv : forall S (cb : S -> list N -> S) (inv : S -> Prop),
+  (forall s a b, inv s -> cb (cb s a) b = cb s (a ++ b)) -> (forall s a, inv s -> inv (cb s a)) ->
+  (forall s, inv s -> cb s [] = s) ->
+  forall rs start end_ s, inv s -> regions_ok rs -> start <= end_ ->
+    on_range cb (Frag true rs) start end_ s = lift S cb s (spec_frag rs start (end_ - start)).
+Proof. exact on_range_frag_inv. Qed.
+
+Theorem C16_math_literals : forall m s c, Forall (fun x => x < 256) s -> sum_list s <= umax -> nlen s <= umax ->
+  (forall f, In f [MEntropy; MMean; MSerial; MMonte] ->
+     snd (model_call m c f [AStr s]) = spec_call m f [AStr s])
+  /\ (forall mu, snd (model_call m c MDeviation [AStr s; AFlt mu]) = spec_call m MDeviation [AStr s; AFlt mu]).
+Proof. exact math_literals. Qed.
+
+(* checksum32 / crc32: any slicing = the reference of the whole; and over (offset, size) of a byte slice *)
+Theorem C16_checksum_crc_slices : forall slices,
+  d_finalize checksum_d (fold_left (d_update checksum_d) slices (d_init checksum_d))
+    = RInt (Z.of_N (checksum32_ref (concat slices)))
+  /\ (Forall (fun b => b < 256) (concat slices) ->
+      d_finalize crc_d (fold_left (d_update crc_d) slices (d_init crc_d)) = RInt (Z.of_N (crc32_ref (concat slices)))).
+Proof. exact checksum_crc_slices. Qed.
+
+Theorem C16_hash_int_ranges : forall mem o n c, Forall (fun x => x < 256) mem -> (o <= i64max)%Z -> (n <= i64max)%Z ->
+  snd (model_call (Direct mem) c HCrc32 [AInt o; AInt n]) = spec_call (Direct mem) HCrc32 [AInt o; AInt n]
+  /\ snd (model_call (Direct mem) c HChecksum32 [AInt o; AInt n]) = spec_call (Direct mem) HChecksum32 [AInt o; AInt n].
+Proof. exact hash_int_ranges. Qed.
 
 Theorem C16_math_mean : forall s, sum_list s <= umax -> nlen s <= umax ->
   compute_from_bytes mean_d s = of_opt_f (mean_spec s).
@@ -166,6 +229,29 @@ Example C16_stream_example :   (* 24 bytes cut 5 + 19: the witness of 9.13, now 
   = Some (FMonte 2 4).
 Proof. vm_compute. reflexivity. Qed.
 
+Example C16_mode_example :   (* 7 and 9 both occur twice: the smaller wins; all counts zero: 0 *)
+  mode_call (Direct [9;7;9;7;200]) [] = RInt 7 /\ mode_spec [9;7;9;7;200] = 7%Z /\ mode_call (Direct []) [] = RInt 0.
+Proof. vm_compute. repeat split. Qed.
+
+Example C16_scc_example : compute_from_bytes scc_d [1;2;3;4] = RFloat (FQ (-1 # 5)).
+Proof. vm_compute. reflexivity. Qed.
+
+Example C16_deviation_example :
+  compute_deviation (distribution_from_bytes [1;2;3;10]) (4 # 1) = RFloat (FQ (3 # 1)).
+Proof. vm_compute. reflexivity. Qed.
+
+Example C16_math_fragmented_example :   (* hypotheses satisfiable; monte-carlo over 12 bytes cut 5 + 7 *)
+  let rs := [{| rg_start := 100; rg_len := 5; rg_data := [0;0;0;0;0]; rg_fail := false |};
+             {| rg_start := 105; rg_len := 7; rg_data := [0;255;255;255;255;255;255]; rg_fail := false |}] in
+  snd (model_call (Frag true rs) no_caches MMonte [AInt 100; AInt 12]) = RFloat (FMonte 1 2)
+  /\ spec_call (Frag true rs) MMonte [AInt 100; AInt 12] = RFloat (FMonte 1 2)
+  /\ snd (model_call (Frag true rs) no_caches MMode [AInt 103; AInt 9]) = RInt 255.
+Proof. vm_compute. repeat split. Qed.
+
+Example C16_crc_table_example :   (* entries 1, 128, 255 of the standard CRC-32 table *)
+  nth 1 crc_table 0 = 1996959894 /\ nth 128 crc_table 0 = 3988292384 /\ nth 255 crc_table 0 = 755167117.
+Proof. vm_compute. repeat split. Qed.
+
 Print Assumptions C16_args_no_overflow.
 Print Assumptions C16_hash_range.
 Print Assumptions C16_hash_literal_same.
@@ -190,4 +276,12 @@ Print Assumptions C16_math_small.
 Print Assumptions C16_math_to_string.
 Print Assumptions C16_crc32.
 Print Assumptions C16_hash_fragmented.
-Print Assumptions C16_math_mode_partial.
+Print Assumptions C16_math_mode.
+Print Assumptions C16_math_serial_correlation.
+Print Assumptions C16_math_deviation.
+Print Assumptions C16_math_ranges.
+Print Assumptions C16_math_literals.
+Print Assumptions C16_checksum_crc_slices.
+Print Assumptions C16_hash_int_ranges.
+Print Assumptions C16_math_fragmented.
+Print Assumptions C16_on_range_fragmented_inv.
